@@ -682,8 +682,34 @@ def cursor_rules(rep, mod, repo):
                  None if ok else 'constructor leaves cursor=%s end=%s' % (fmt_term(p) if p else '?', fmt_term(e) if e else '?'))
     W = 'igris::archive::binary_buffer_writer'
     f = mod.fn(cxx(mod, W, 'dump_data'))
-    st, rv = one_path(mod, repo, f)
     w = '%s:%d' % (f.file, f.line)
+    # a defensive guard in front of the copy is fine as long as it refuses only what does NOT fit (cursor + size > end); a path
+    # that returns without writing although the bytes fit exactly drops data (the encoding is then no longer what the
+    # string writer produces)
+    ex_ = Exec(mod, repo, LEAF_A, start=f.name)
+    paths = ex_.run(f, [('arg', n) for n in range(len(f.params))], St())
+    writing = [(s_, r_) for (s_, r_) in paths if calls(s_, 'memcpy') or s_.mem.get(this)]
+    silent = [(s_, r_) for (s_, r_) in paths if not (calls(s_, 'memcpy') or s_.mem.get(this))]
+    if len(writing) != 1:
+        raise AnalysisBroken('%s: %d writing paths, expected one' % (f.qualname, len(writing)))
+    for (s_, r_) in silent:
+        okp = False
+        for (c, pol) in s_.conds:
+            if c[0] != 'icmp':
+                continue
+            pred, a, b = c[1], c[2], c[3]
+            if not pol:
+                pred = {'ugt': 'ule', 'uge': 'ult', 'ult': 'uge', 'ule': 'ugt', 'sgt': 'sle', 'sge': 'slt', 'slt': 'sge', 'sle': 'sgt',
+                        'eq': 'ne', 'ne': 'eq'}.get(pred, pred)
+            if pred in ('ult', 'slt'):
+                pred, a, b = {'ult': 'ugt', 'slt': 'sgt'}[pred], b, a
+            # cursor + size > end
+            if pred in ('ugt', 'sgt') and a[0] == 'padd' and a[1] == cur(WR, 'ptr') and nz_eq(a[2], ('arg', 2)) and b == cur(WR, '_end'):
+                okp = True
+        rep.inst('R-CURSOR', W + '::dump_data', 'writes nothing only when the bytes do not fit (cursor + size > end)', okp, w,
+                 None if okp else 'dump_data returns without writing under %s: data that fits the buffer exactly (or at all) is '
+                 'dropped' % ' and '.join('%s%s' % ('' if pl else 'not ', fmt_term(cn)) for cn, pl in s_.conds))
+    st, rv = writing[0]
     mc = calls(st, 'memcpy')
     ok = len(mc) == 1 and mc[0]['args'][0] == cur(WR, 'ptr') and mc[0]['args'][1] == ('arg', 1) and nz_eq(mc[0]['args'][2], ('arg', 2))
     rep.inst('R-CURSOR', W + '::dump_data', 'copies size bytes from the source to the cursor', ok, w,
